@@ -37,6 +37,7 @@ class Sym:
         self.fold = fold
         self.inline_local = inline_local
         self._depth = 0
+        self.closure_lets = {}   # local id -> closure path, for `let mut f = |..| ..` (a FnMut local is never let-inlined)
         self.transparent = set(transparent)
         self.inline_lets = inline_lets
         self.effects = []  # statements evaluated for effect, in order: (term, node)
@@ -47,6 +48,8 @@ class Sym:
         for n in walk(root):
             k = n.get("k")
             tgt = None
+            if k == "LetStmt" and "i" in n and n["p"].get("k") == "Bind" and peel(n["i"]).get("k") == "Closure":
+                self.closure_lets[n["p"]["id"]] = peel(n["i"])["d"]
             if k in ("Assign", "AssignOp"):
                 tgt = n["l"]
             elif k == "Borrow" and n.get("m"):
@@ -110,7 +113,11 @@ class Sym:
                 ps = ps[1:]
             env2 = {}
             if len(ps) == 1:
-                self.bind_pat(ps[0]["p"], arg, env2)
+                a1 = arg[1][0] if arg[0] == "tuple" and len(arg[1]) == 1 else arg
+                self.bind_pat(ps[0]["p"], a1, env2)
+            elif arg[0] == "tuple" and len(arg[1]) == len(ps):
+                for p_, a_ in zip(ps, arg[1]):
+                    self.bind_pat(p_["p"], a_, env2)
             sub = Sym(self.facts, self.transparent, self.inline_lets, self.fold, self.inline_local)
             sub._depth = self._depth
             sub.scan(c["body"])
@@ -188,6 +195,14 @@ class Sym:
                     av = value(a_)
                     if av[0] == "return":
                         return av       # evaluating the argument leaves the function
+                if name in ("call", "call_mut", "call_once") and len(args) == 2:
+                    f0 = value(args[0])
+                    if f0[0] == "var" and len(f0) > 2 and f0[2] in self.closure_lets:
+                        f0 = ("closure", self.closure_lets[f0[2]], ())
+                    if f0[0] == "closure":
+                        r = self.apply(f0, args[1])
+                        if r is not None:
+                            return r
                 if name == "map_err" and len(args) == 2:
                     # x.map_err(f) has the value of Ok(x?) up to the error type
                     return ("adt", "core::result::Result", "Ok", (("0", ("try", args[0])),))
